@@ -24,20 +24,23 @@ Definition writers_ok (l : list site) : bool :=
 Definition readers_shared (l : list site) : bool :=
   forallb (fun s => implb (negb (site_writes s)) (lmode_eqb (site_mode s) Shared)) l.
 
-(* Specification: the operations of the two classes that must run under the path lock, in source order. *)
-Definition specified_sites : list (string * lmode) :=
-  [ ("LocalDirectoryContext.store_annotation", Exclusive);
-    ("LocalDirectoryContext.retrieve_annotation", Shared);
-    ("LocalDirectoryContext.store_message", Exclusive);
-    ("LocalDirectoryContext.retrieve_log", Shared);
-    ("LocalModelDirectoryDatabase.snapshot", Shared);
-    ("LocalModelDirectoryDatabase.transaction", Exclusive) ].
+(* Specification: the operations of the two classes that must run under the path lock, in source order, with the mode
+   and whether the locked section modifies the file system (store_annotation reads the file, writes annotations.tmp and
+   renames it over the original with os.replace: a writer). *)
+Definition specified_sites : list (string * lmode * bool) :=
+  [ ("LocalDirectoryContext.store_annotation", Exclusive, true);
+    ("LocalDirectoryContext.retrieve_annotation", Shared, false);
+    ("LocalDirectoryContext.store_message", Exclusive, true);
+    ("LocalDirectoryContext.retrieve_log", Shared, false);
+    ("LocalModelDirectoryDatabase.snapshot", Shared, false);
+    ("LocalModelDirectoryDatabase.transaction", Exclusive, true) ].
 
-Fixpoint spec_eqb (a b : list (string * lmode)) : bool :=
+Fixpoint spec_eqb (a b : list (string * lmode * bool)) : bool :=
   match a, b with
   | [], [] => true
-  | (n1, m1) :: a', (n2, m2) :: b' => String.eqb n1 n2 && lmode_eqb m1 m2 && spec_eqb a' b'
+  | (n1, m1, w1) :: a', (n2, m2, w2) :: b' =>
+      String.eqb n1 n2 && lmode_eqb m1 m2 && Bool.eqb w1 w2 && spec_eqb a' b'
   | _, _ => false
   end.
 Definition sites_as_specified (l : list site) : bool :=
-  spec_eqb (map (fun s => (site_fn s, site_mode s)) l) specified_sites.
+  spec_eqb (map (fun s => (site_fn s, site_mode s, site_writes s)) l) specified_sites.
